@@ -51,7 +51,21 @@ JOBSETS['hist'] = {
     'wall': {'quick': 1500, 'thorough': 7200},
 }
 
+import re as _re, os as _os
+_iv = open(_os.path.join(_os.path.dirname(_os.path.dirname(_os.path.abspath(__file__))), 'harness', 'overlay', 'zz_verif_invalid.go')).read()
+_NCASES = len(_re.findall(r'ivc\[Iv\w+\]\("', _iv))
+_NARGS = 9
+FPKG = 'github.com/cloudwego/frugal'
+JOBSETS['invalid'] = {
+    'jobs': {t: [{'id': 'invalid/def%02d' % i, 'entry': FPKG + '.VerifInvalidDef', 'reach': ['end'], 'cfg': {'params': {'case': i}}, 'tags': ['invalid']} for i in range(_NCASES)] +
+                [{'id': 'invalid/arg%d' % i, 'entry': FPKG + '.VerifInvalidArg', 'reach': ['end'], 'cfg': {'params': {'case': i}}, 'tags': ['invalid']} for i in range(_NARGS)]
+             for t in ('quick', 'thorough')},
+    'cfg': {'quick': {'timeout_s': 300}, 'thorough': {'timeout_s': 900}},
+    'wall': {'quick': 1200, 'thorough': 3600},
+}
+
 PROPS = {
+    'C13': {'jobsets': ['invalid'], 'phases': [''], 'translator_validation': 4},
     'C07': {'jobsets': ['hist', 'dec2'], 'phases': ['pred', 'decode'], 'also_labels': r'^(C03|C09|C05|C06|C01)', 'job_filter': r'^(hist|dec2)/'},
     'C06': {'jobsets': ['unit', 'dec2', 'decmsg', 'codec'], 'phases': [], 'job_filter': r'unit/(span|decoder)|^decmsg/|^dec2/|^codec/', 'also_labels': r'^M-(scan|align)'},
     'C01': {'jobsets': ['codec'], 'phases': ['decode']},
